@@ -386,3 +386,25 @@ def reference_A(rec, prefix=""):
 
 def rowscale(A):
     return np.maximum(np.abs(A).max(axis=1), 1e-300)
+
+
+# ---------------------------------------------------------------------------------------------
+# linearity probes (see harness/opalg.cpp: linProbe)
+# ---------------------------------------------------------------------------------------------
+LIN_TOL = 1e-10
+
+
+def lin_deviation(M, X, Y, M2=None, X2=None):
+    """max over the three probe vectors of |Y_k - M X_k (- M2 X2_k)|_inf relative to | |M||X_k| (+|M2||X2_k|) |_inf"""
+    worst = 0.0
+    for k in range(X.shape[0]):
+        pred = M @ X[k]
+        scale = np.abs(M) @ np.abs(X[k])
+        if M2 is not None:
+            pred = pred + M2 @ X2[k]
+            scale = scale + np.abs(M2) @ np.abs(X2[k])
+        if not np.all(np.isfinite(Y[k])):
+            return float("inf")
+        den = float(scale.max()) + 1e-300
+        worst = max(worst, float(np.abs(Y[k] - pred).max()) / den)
+    return worst
